@@ -307,6 +307,9 @@ func (c *ctx) prepare() {
 					cp(filepath.Join(pdir, e.Name()), filepath.Join(dir, strings.TrimSuffix(e.Name(), ".txt")))
 				}
 			}
+			if vd.ExtraSchema != "" {
+				os.WriteFile(filepath.Join(dir, "extra.graphql"), []byte(vd.ExtraSchema), 0o644)
+			}
 			cfg, err := probeConfig(j.probe, j.variant)
 			if err != nil {
 				errs[i] = err.Error()
@@ -341,6 +344,8 @@ type variantDef struct {
 	// RenameMutation generates the probe with a mutation root type that is not called Mutation
 	// (schema { mutation: RootMutation }).
 	RenameMutation bool `json:"rename_mutation"`
+	// ExtraSchema is schema text only this variant has (written as extra.graphql).
+	ExtraSchema string `json:"extra_schema"`
 }
 
 func loadVariant(probe, name string) (*variantDef, error) {
